@@ -835,3 +835,113 @@ def rule_s9(ctx, rule: str, consequence: str):
                   how="separators of the module's composite-name f-strings × split calls on those separators (partition / maxsplit=1 vs unbounded + length test)",
                   construct=f"unbounded split on {sep!r}")
     ctx.require(n >= 2, "no parser of composite names found in serde (format {domain}::{function}/{value} expected)")
+
+
+# ---------------------------------------------------------------------------------------------------------------------- S10
+def _annotation_sources(repo, typer, f: FuncInfo, e, depth: int = 0):
+    """Declared types (annotation expressions) of the places a tested expression takes its value from: parameters, annotated
+    fields and property getters behind attribute reads, and - through locals - assigned values, the values of a dict display
+    iterated with .items()/.values(), and the elements of a tuple/list display that is iterated."""
+    if depth > 4:
+        return
+    if isinstance(e, ast.Attribute):
+        found = False
+        for k in typer.recv_classes(f, e.value):
+            hit = repo.lookup(k, e.attr)
+            if isinstance(hit, dict) and "get" in hit and getattr(hit["get"].node, "returns", None) is not None:
+                found = True
+                yield hit["get"].node.returns, f"{k.name}.{e.attr}"
+            for kk in repo.mro(k):
+                if hasattr(kk, "ann_fields") and e.attr in kk.ann_fields:
+                    found = True
+                    yield kk.ann_fields[e.attr], f"{kk.name}.{e.attr}"
+                    break
+        if not found:
+            # receiver narrowed by isinstance (or untyped): every property of that name in the package
+            for m in repo.pkg_modules():
+                for k in m.classes.values():
+                    p_ = k.props.get(e.attr)
+                    if p_ and "get" in p_ and getattr(p_["get"].node, "returns", None) is not None:
+                        yield p_["get"].node.returns, f"{k.name}.{e.attr}"
+        return
+    if not isinstance(e, ast.Name):
+        return
+    a = getattr(f.node, "args", None)
+    if a is not None:
+        for x in a.posonlyargs + a.args + a.kwonlyargs:
+            if x.arg == e.id and x.annotation is not None:
+                yield x.annotation, f"parameter {e.id}"
+    for n in own_nodes(f.node):
+        if isinstance(n, ast.Assign) and any(isinstance(t, ast.Name) and t.id == e.id for t in n.targets):
+            yield from _annotation_sources(repo, typer, f, n.value, depth + 1)
+        elif isinstance(n, ast.AnnAssign) and isinstance(n.target, ast.Name) and n.target.id == e.id:
+            yield n.annotation, f"local {e.id}"
+        elif isinstance(n, (ast.For, ast.comprehension)):
+            tgt, it = n.target, n.iter
+            pos = None
+            if isinstance(tgt, ast.Name) and tgt.id == e.id:
+                pos = "elem"
+            elif isinstance(tgt, ast.Tuple) and len(tgt.elts) == 2 and isinstance(tgt.elts[1], ast.Name) and tgt.elts[1].id == e.id:
+                pos = "value"
+            if pos is None:
+                continue
+            src = it
+            if isinstance(it, ast.Call) and isinstance(it.func, ast.Attribute) and it.func.attr in ("items", "values") and not it.args:
+                if (pos == "value") != (it.func.attr == "items"):
+                    continue
+                src = it.func.value
+            elif pos == "value":
+                continue
+            for _ in range(2):
+                if isinstance(src, ast.Name):
+                    binds = [x.value for x in own_nodes(f.node) if isinstance(x, ast.Assign) and any(isinstance(t, ast.Name) and t.id == src.id for t in x.targets)]
+                    if len(binds) == 1:
+                        src = binds[0]
+            if isinstance(src, ast.Dict):
+                for v in src.values:
+                    yield from _annotation_sources(repo, typer, f, v, depth + 1)
+            elif isinstance(src, (ast.Tuple, ast.List, ast.Set)) and pos == "elem":
+                for v in src.elts:
+                    yield from _annotation_sources(repo, typer, f, v, depth + 1)
+
+
+def _optional_number(ann) -> bool:
+    import re
+
+    t = norm(ann)
+    return bool(re.search(r"\bNone\b|\bOptional\b", t)) and bool(re.search(r"\b(int|float)\b", t)) and not re.search(r"\b(Sequence|list|tuple|Iterable|Mapping|dict)\b", t)
+
+
+def optional_number_truth_tests(repo, typer, f: FuncInfo):
+    """Shared rule S10: [(test node, tested expression, source description)] for every truthiness test (`if x`, `if not x`, an
+    operand of and/or, `x if x else …`) of an expression whose declared type is an optional number (`int | None`): 0 is a
+    value, not an absence."""
+    out = []
+    seen = set()
+
+    def tested(t):
+        while isinstance(t, ast.UnaryOp) and isinstance(t.op, ast.Not):
+            t = t.operand
+        if isinstance(t, ast.BoolOp):
+            for v in t.values:
+                yield from tested(v)
+        elif isinstance(t, (ast.Name, ast.Attribute)):
+            yield t
+
+    for n in own_nodes(f.node):
+        tests = []
+        if isinstance(n, (ast.If, ast.While, ast.IfExp)):
+            tests = list(tested(n.test))
+        elif isinstance(n, ast.BoolOp) and not isinstance(getattr(n, "_parent", None), (ast.If, ast.While, ast.IfExp, ast.BoolOp, ast.UnaryOp)):
+            tests = [v for v in n.values[:-1] if isinstance(v, (ast.Name, ast.Attribute))]
+        elif isinstance(n, ast.comprehension):
+            tests = [x for c in n.ifs for x in tested(c)]
+        for t in tests:
+            if id(t) in seen:
+                continue
+            seen.add(id(t))
+            for ann, src in _annotation_sources(repo, typer, f, t):
+                if _optional_number(ann):
+                    out.append((n, t, src))
+                    break
+    return out
